@@ -128,6 +128,35 @@ func (fx *FX) computeLabels() {
 			ls.val[fv], ls.mem[fv] = label{usr: true}, label{usr: true}
 		}
 	}
+	// the same convention for local variables (bindings that read their value from outside the function, as the
+	// WebAssembly binding does from its JS arguments): a local named secret/secretBuf holds the secret, one named code the submitted code
+	for _, b := range fn.Blocks {
+		for _, in := range b.Instrs {
+			if d, ok := in.(*ssa.DebugRef); ok && d.X != nil && d.Object() != nil {
+				if _, isConst := d.X.(*ssa.Const); isConst {
+					continue
+				}
+				var l label
+				switch d.Object().Name() {
+				case "secret", "secretBuf", "secretStr":
+					l = label{key: true}
+				case "code":
+					l = label{usr: true}
+				default:
+					continue
+				}
+				if d.IsAddr {
+					ls.mem[rootOf(d.X)] = ls.mem[rootOf(d.X)].join(l)
+				} else {
+					ls.val[d.X] = ls.val[d.X].join(l)
+					switch d.X.Type().Underlying().(type) {
+					case *types.Slice, *types.Pointer:
+						ls.mem[rootOf(d.X)] = ls.mem[rootOf(d.X)].join(l)
+					}
+				}
+			}
+		}
+	}
 	get := func(v ssa.Value) label {
 		if v == nil {
 			return label{}
@@ -304,6 +333,11 @@ func (fx *FX) labelCallInstr(ci ssa.CallInstruction, get func(ssa.Value) label, 
 			return
 		}
 	}
+	if callee := c.StaticCallee(); callee != nil && v != nil && fx.u.internal(callee) && len(callee.Blocks) > 0 {
+		// what the callee's results carry by themselves (an HMAC output computed inside, whatever the labels of the arguments)
+		set(v, argJoin().join(fx.u.intrinsicResult(callee)))
+		return
+	}
 	if c.IsInvoke() {
 		name = "invoke " + c.Value.Type().String() + "." + c.Method.Name()
 	}
@@ -424,4 +458,33 @@ func (fx *FX) computeLabelsInline(caller *FX) {
 		return
 	}
 	fx.labels = caller.labels
+}
+
+// intrinsicResult: the labels the results of an in-unit function carry under the default labelling of its own
+// parameters (memoised; a recursive cycle contributes nothing).
+func (u *Unit) intrinsicResult(fn *ssa.Function) label {
+	if u.intrinsic == nil {
+		u.intrinsic = map[*ssa.Function]*label{}
+	}
+	if l, ok := u.intrinsic[fn]; ok {
+		if l == nil {
+			return label{}
+		}
+		return *l
+	}
+	u.intrinsic[fn] = nil
+	tmp := &FX{u: u, fn: fn, fc: u.contractOf(fn)}
+	tmp.computeLabels()
+	var l label
+	for _, b := range fn.Blocks {
+		for _, in := range b.Instrs {
+			if r, ok := in.(*ssa.Return); ok {
+				for _, x := range r.Results {
+					l = l.join(tmp.labels.val[x])
+				}
+			}
+		}
+	}
+	u.intrinsic[fn] = &l
+	return l
 }
